@@ -464,6 +464,9 @@ out:
 			s.error(err)
 		},
 	)
+	// The routines started below may find the connection dead at once: the disconnected handler
+	// must not overtake the new-client handler (see handleDisconnect)
+	ws.announcedC = make(chan struct{})
 	// Add new client
 	s.connections[ws.id] = ws
 	s.connMutex.Unlock()
@@ -473,6 +476,7 @@ out:
 		var channel Channel = ws
 		s.newClientHandler(channel)
 	}
+	close(ws.announcedC)
 }
 
 // --------- Internal callbacks webSocket -> server ---------
@@ -489,6 +493,10 @@ func (s *server) handleDisconnect(w Channel, _ error) {
 	delete(s.connections, w.ID())
 	s.connMutex.Unlock()
 	log.Infof("closed connection to %s", w.ID())
+	// Lifecycle callbacks come in order: new-client first, even for a connection that ends right after the handshake
+	if ws, ok := w.(*webSocket); ok && ws.announcedC != nil {
+		<-ws.announcedC
+	}
 	if s.disconnectedHandler != nil {
 		s.disconnectedHandler(w)
 	}
